@@ -7,6 +7,7 @@ pub mod c04;
 pub mod c05;
 pub mod c06;
 pub mod c08;
+pub mod c09;
 pub mod c10;
 pub mod c14;
 pub mod c15;
@@ -24,6 +25,7 @@ pub fn lookup(id: &str) -> Option<PropFn> {
         "C05" => c05::run,
         "C06" => c06::run,
         "C08" => c08::run,
+        "C09" => c09::run,
         "C10" => c10::run,
         "C14" => c14::run,
         "C15" => c15::run,
